@@ -101,7 +101,7 @@ def execute(scenario):
                 cur_step = r
             elif r["kind"] == "EXEC":
                 reb = r["rebalancing"]
-                changed = r.get("hold_after") != r["hold_before"]
+                changed = {a: b for a, b in (r.get("hold_after") or {}).items() if a != "USD"} != {a: b for a, b in r["hold_before"].items() if a != "USD"}
                 recorded = r.get("n_rec_after", r["n_rec_before"]) == r["n_rec_before"] + 1
                 k = cur_step["k"] if cur_step else None
                 if not recorded:
